@@ -628,6 +628,38 @@ for node in it: nodes
 //@ spec
     ensures
         r@.len() == self.stored_edge_count(),
+        r@.len() == self.all_edges_seq().len(),
+        forall|i: int| 0 <= i < r@.len() ==> **(#[trigger] r@[i]) == self.all_edges_seq()[i],
+//@ end
+
+//@ extract fn src/graph/query.rs edges_have_weight props=C02,C20 ty=Graph
+//@ rewrite
+-> bool
+//@ with
+-> (r: bool)
+//@ rewrite
+for edge in self.get_all_edges()
+//@ with
+for edge in it: self.get_all_edges()
+//@ spec
+    ensures
+        // [C02.guards.edges_have_weight]
+        r == (forall|i: int| 0 <= i < self.all_edges_seq().len() ==> feq((#[trigger] self.all_edges_seq()[i]).weight, self.all_edges_seq()[i].weight)),
+//@ loop 1
+            invariant
+                forall|i: int| 0 <= i < it.index@ ==> feq((#[trigger] self.all_edges_seq()[i]).weight, self.all_edges_seq()[i].weight),
+//@ end
+
+//@ extract fn src/graph/ensure.rs ensure_weighted props=C02,C20 ty=Graph
+//@ rewrite
+-> Result<(), Error>
+//@ with
+-> (r: Result<(), Error>)
+//@ spec
+    ensures
+        // [C02.guards.ensure_weighted]
+        (forall|i: int| 0 <= i < self.all_edges_seq().len() ==> feq((#[trigger] self.all_edges_seq()[i]).weight, self.all_edges_seq()[i].weight)) ==> r.is_ok(),
+        !(forall|i: int| 0 <= i < self.all_edges_seq().len() ==> feq((#[trigger] self.all_edges_seq()[i]).weight, self.all_edges_seq()[i].weight)) ==> is_err_kind(r, ErrorKind::EdgeWeightNotSpecified),
 //@ end
 
 //@ extract fn src/graph/query.rs number_of_edges props=C09,C20 ty=Graph
